@@ -23,6 +23,24 @@ static struct {
 static const long nvals[] = { 0, 1, 2, 3, 4, 5, 7, 8, 9, 15, 16, 17, 31, 32, 33, 63, 64, 65, 100, 127, 128, 129, 255, 256, 257, 300 };
 
 static void * value_of(long i, int fk) { return (void *)(uintptr_t)(0xC000 + i * 4 + fk); }
+/* nested use: some items run a bulk fork-join of their own, with another function, while the outer one is in flight */
+static int g_nest; static long inner_arg[512][4]; static void * inner_res[512][4]; static volatile int inner_cnt[512][4]; static volatile long inner_calls;
+static void * inner_f(void * a) {
+  long * p = a; long d = p - &inner_arg[0][0];
+  if (d < 0 || d >= 512 * 4) { B.bad_arg = 1; return 0; }
+  __sync_fetch_and_add(&inner_cnt[d / 4][d % 4], 1); __sync_fetch_and_add(&inner_calls, 1);
+  if (d & 1) myth_yield();
+  return (void *)(uintptr_t)(0xD000 + d);
+}
+static void run_inner(long i) {
+  int m = 1 + (int)(i % 4);
+  int rc = myth_create_join_many_ex(0, 0, inner_f, &inner_arg[i][0], &inner_res[i][0], 0, 0, sizeof(long), sizeof(void *), m);
+  if (rc != 0) mt_fail("nested create_join_many returned %d", rc);
+  for (int j = 0; j < m; j++) {
+    if (inner_cnt[i][j] != 1) mt_fail("nested create_join_many inside item %ld: inner item %d invoked %d times when the call returned", i, j, inner_cnt[i][j]);
+    if (inner_res[i][j] != (void *)(uintptr_t)(0xD000 + i * 4 + j)) mt_fail("nested create_join_many inside item %ld: result %d is %p", i, j, inner_res[i][j]);
+  }
+}
 static void * generic(void * a, int fk) {
   uint8_t * p = a;
   mv_progress();
@@ -35,6 +53,7 @@ static void * generic(void * a, int fk) {
   if (d < 0 || d % (long)B.arg_stride || d / (long)B.arg_stride >= B.n) { B.bad_arg = 1; return 0; }
   long i = d / (long)B.arg_stride;
   if (i < 512) { __sync_fetch_and_add(&B.cnt[i], 1); B.which[i] = fk; }
+  if (g_nest && i < 512 && (i % 5) == 2) run_inner(i);
   if (i & 1) myth_yield();
   return value_of(i, fk);
 }
@@ -74,9 +93,11 @@ void scen_c17(mt_case * c) {
     if (o > ARENA) mt_reject("arena too small");
   }
   if (!B.various) B.func_stride = 0;
+  g_nest = B.arg_stride != 0 && rd_below(r, 3) == 0;
   mt_desc("C17 create_join_%s n=%ld layout=%s strides: arg=%zu result=%zu id=%zu attr=%zu func=%zu results=%s ids=%s attrs=%s\n",
           B.various ? "various" : "many", B.n, B.layout ? "interleaved struct" : "separate arrays", B.arg_stride, B.res_stride, B.id_stride, B.attr_stride, B.func_stride,
           B.have_res ? "yes" : "NULL", B.have_ids ? "yes" : "NULL", B.have_attrs ? "yes" : "NULL");
+  if (g_nest) mt_desc(" items 2, 7, 12, ... run a nested create_join_many (1..4 items, another function) of their own\n");
   mt_hash(c->prog.p, c->prog.pos);
   mt_allow_prelude = 1;
   mt_lib_start(c, &e, 0);
@@ -139,6 +160,6 @@ void scen_c17(mt_case * c) {
   mt_stat("n", B.n); mt_stat("steals", steals);
   mt_label(B.various ? "various" : "many"); mt_label(B.layout ? "interleaved" : "separate");
   if (B.n == 0) mt_label("n0"); if (B.arg_stride == 0) mt_label("shared_arg"); if (B.various && B.func_stride == 0) mt_label("shared_func_slot");
-  if (!B.have_res) mt_label("results_NULL"); if (!B.have_ids) mt_label("ids_NULL"); if (B.have_attrs) mt_label("per_item_attrs"); if (steals) mt_label("stolen");
+  if (!B.have_res) mt_label("results_NULL"); if (!B.have_ids) mt_label("ids_NULL"); if (B.have_attrs) mt_label("per_item_attrs"); if (steals) mt_label("stolen"); if (g_nest && inner_calls) mt_label("nested_bulk_call");
   mt_nontrivial(B.n >= 2 && (steals > 0 || B.layout == 1 || B.have_attrs));
 }
